@@ -6,3 +6,7 @@ export CARGO_NET_OFFLINE=true
 cd "$HERE/harness"
 [ -f Cargo.lock ] || cp /repo/Cargo.lock Cargo.lock
 cargo build --release 2>&1 | tail -3
+# libFuzzer targets (thorough tier of C01, C19, C20)
+cd "$HERE/fuzz"
+[ -f Cargo.lock ] || cp ../harness/Cargo.lock Cargo.lock
+cargo +nightly fuzz build -O -s none --fuzz-dir . 2>&1 | tail -2
